@@ -25,6 +25,7 @@ DIRECT_BY_SUITE = {
     ("argon", "block"): ("differs-from-rfc", "the compression function G differs from RFC 9106 §3.5 (model proved equal: C04.processBlock_eq_G)"),
     ("argon", "ialpha"): ("differs-from-rfc", "the reference index differs from RFC 9106 §3.4 (kernel regenerated from source; C04.indexAlpha_eq_refIndex)"),
     ("argonsched", "argon2key"): ("differs-from-sequential", "the key computed by the concurrent lanes differs from the sequential evaluation (C09.key_schedule_independent)"),
+    ("xcrypt", "newhash"): ("differs-from-spec", "NT hash of non-ASCII text differs from MD4 of its UTF-16LE encoding (model proved equal to that reference: C03b.nthash_eq_spec)"),
     ("salt", "newhash"): ("salt", "the generated hash is not the specified function of the entropy delivered by crypto/rand (salt symbols / bytes consumed)"),
 }
 # suites whose operations the driver answers without any state carried between lines
